@@ -115,7 +115,7 @@ static void run_shape_case(uint64_t seed, unsigned long icase, uint64_t maxpx)
         p.binning = bins[vrng_below(&g, 8)];
         p.pixel_type = (enum SampleType)vrng_below(&g, SampleTypeCount);
         p.exposure_time_us = (float)vrng_range(&g, 50, 500);
-        p.input_triggers.frame_start.enable = 0;
+        p.input_triggers.frame_start.enable = (uint8_t)vrng_chance(&g, 1, 3); // with the software trigger, every frame call is preceded by a trigger
         uint8_t b = p.binning ? p.binning : 1;
         int valid_binning = (b & (b - 1)) == 0;
         uint32_t cap = (uint32_t)(8192 / (valid_binning ? b : 1));
@@ -129,7 +129,7 @@ static void run_shape_case(uint64_t seed, unsigned long icase, uint64_t maxpx)
         p.offset.x = vrng_chance(&g, 1, 2) ? 0 : (uint32_t)vrng_range(&g, 0, 9000);
         p.offset.y = vrng_chance(&g, 1, 2) ? 0 : (uint32_t)vrng_range(&g, 0, 9000);
         const struct CameraProperties req = p;
-        vbuf_printf(&g_log, "set(bin=%u,%s,%ux%u,off=%u,%u) ", p.binning, k_type[p.pixel_type], p.shape.x, p.shape.y, p.offset.x, p.offset.y);
+        vbuf_printf(&g_log, "set(bin=%u,%s,%ux%u,off=%u,%u%s) ", p.binning, k_type[p.pixel_type], p.shape.x, p.shape.y, p.offset.x, p.offset.y, p.input_triggers.frame_start.enable ? ",trig" : "");
         ++C.sets;
         enum DeviceStatusCode rc = camera_set(cam, &p);
         if (!valid_binning) {
@@ -158,7 +158,7 @@ static void run_shape_case(uint64_t seed, unsigned long icase, uint64_t maxpx)
         struct CameraProperties back; memset(&back, 0xee, sizeof back);
         if (camera_get(cam, &back) != Device_Ok) { violation("get-failed", "camera_get failed"); break; }
         if (back.shape.x != ew || back.shape.y != eh || back.binning != b || back.pixel_type != req.pixel_type ||
-            back.input_triggers.frame_start.enable != 0 || back.exposure_time_us != req.exposure_time_us)
+            back.input_triggers.frame_start.enable != req.input_triggers.frame_start.enable || back.exposure_time_us != req.exposure_time_us)
             violation("readback-mismatch", "get returned shape %ux%u bin %u type %d exposure %g; in effect %ux%u bin %u type %d exposure %g",
                       back.shape.x, back.shape.y, back.binning, (int)back.pixel_type, (double)back.exposure_time_us, ew, eh, b,
                       (int)req.pixel_type, (double)req.exposure_time_us);
@@ -190,6 +190,7 @@ static void run_shape_case(uint64_t seed, unsigned long icase, uint64_t maxpx)
                 uint64_t pk = vmix(vmix(seed, icase), (uint64_t)(s * 64 + r * 8 + f));
                 for (size_t i = 0; i < nbytes; ++i) im[i] = (uint8_t)(vmix(pk, i >> 3) >> (8 * (i & 7)));
                 size_t nb = nbytes; struct ImageInfo info; memset(&info, 0, sizeof info);
+                if (req.input_triggers.frame_start.enable) { camera_execute_trigger(cam); ++C.triggers; }
                 if (camera_get_frame(cam, im, &nb, &info) != Device_Ok) { violation("get-frame-failed", "camera_get_frame failed"); free(im); break; }
                 if (memcmp(&info.shape, &sh, sizeof sh) != 0) violation("frame-shape-mismatch", "frame info shape differs from get_shape");
                 for (size_t i = 0; i < nbytes; ++i)
